@@ -25,8 +25,6 @@ def jList {α} (f : Json → Except String α) (j : Json) : Except String (List 
   let a ← jArr j
   a.toList.mapM f
 
-def polNum (s : String) : Nat := if s == "fence" then 1 else if s == "disabled" then 2 else 0
-
 def jPQ (j : Json) : Except String PQ := do
   pure { path := ← (fld j "path") >>= jStr, parent := ← jOptNat' (fldD j "parent" .null), leaf := ← (fld j "leaf") >>= jBool,
          max := ← jORes (fldD j "max" .null), effMax := ← jORes (fldD j "effMax" .null), guar := ← jORes (fldD j "guar" .null),
@@ -151,7 +149,27 @@ def preemptStep (st : PreSt) (j : Json) : Except String (PreSt × String) := do
     | .error _ => return ({ world := none }, "ok")     -- the world could not be built (reported as panic)
     | .ok d =>
       let qsJ ← (fld d "queues") >>= jArr
-      let qs ← qsJ.toList.mapM jPQ
+      let qsRep ← qsJ.toList.mapM jPQ
+      -- the OWN property texts as configured; the four settings the preemption code reads are COMPUTED from them
+      -- (mergeProperties / filterParentProperty / UpdateQueueProperties) and compared with what the real queues report
+      let confJ ← (fld j "queues") >>= jArr
+      let owns ← confJ.toList.mapM (fun cj => match fldD cj "props" .null with
+        | .obj kvs => kvs.toList.mapM (fun (k, v) => do pure (k, ← jStr v))
+        | _ => pure [])
+      let qs0 : List PQ := (List.range qsRep.length).filterMap (fun i => match qsRep[i]?, owns[i]? with
+        | some q, some o => some { q with own := o, leaf := !(qsRep.any (fun c => c.parent == some i)) }
+        | _, _ => none)
+      let w0 : World := { queues := qs0, nodes := [], allocs := [], ask := { key := "", app := "", q := 0, res := [], prio := 0, other := false, self := false, req := none, age := 0, triggered := false } }
+      let qs : List PQ := (List.range qs0.length).filterMap (fun i => match qs0[i]? with
+        | some q => let s := derivedSettings w0 i; some { q with ppol := s.1, prFence := s.2.1, off := s.2.2.1, delay := s.2.2.2 }
+        | none => none)
+      let polDiff := (qs.zip qsRep).findSome? (fun (m, r) =>
+        if m.leaf != r.leaf then some s!"elig.policy[{m.path}] leaf model={m.leaf} impl={r.leaf}"
+        else if m.ppol != r.ppol then some s!"elig.policy[{m.path}] preemption.policy model={m.ppol} impl={r.ppol} (0 default, 1 fence, 2 disabled) own={m.own}"
+        else if m.prFence != r.prFence then some s!"elig.policy[{m.path}] priority.policy fence model={m.prFence} impl={r.prFence} own={m.own}"
+        else if m.off != r.off then some s!"elig.policy[{m.path}] priority.offset model={m.off} impl={r.off} own={m.own}"
+        else if m.delay != r.delay then some s!"elig.policy[{m.path}] preemption.delay model={m.delay} impl={r.delay} own={m.own}"
+        else none)
       let ns ← (fld d "nodes") >>= jList jPNode
       let allocs ← (fld j "allocs") >>= jList jPAlloc
       let ask ← (fld j "ask") >>= jPAsk
@@ -167,7 +185,12 @@ def preemptStep (st : PreSt) (j : Json) : Except String (PreSt × String) := do
           else if !resEq (preemptingOf w i) ip then some s!"reset.preempting[{pathOf w i}] model={showRes (preemptingOf w i)} impl={showRes ip}"
           else none)
       if !wellFormedB w then return ({ world := some w }, "bad-op generated world is not well-formed (parents first, unique paths, path prefix = ancestor)")
-      return ({ world := some w }, match bad with | some b => s!"diff {b}" | none => "ok")
+      -- C07 on the tree itself: a queue whose nearest configured preemption.policy reads `disabled` must report disabled
+      let inh := (List.range qs.length).filterMap (fun i => match qsRep[i]? with
+        | some r => if inheritedDisabled (confOf w) i && r.ppol != 2 then some s!"C07.E7i-disabled-policy-inherited {r.path} reports policy {r.ppol} although the nearest configured preemption.policy on its path reads disabled" else none
+        | none => none)
+      let diffs := (match polDiff with | some b => [b] | none => []) ++ (match bad with | some b => [b] | none => [])
+      return ({ world := some w }, verdict diffs inh)
   let some w0 := st.world | return (st, "bad-op no world")
   if (j.getObjVal? "panic").toOption.isSome then
     -- the panic itself is reported by the main loop; tag it for the property it belongs to
@@ -213,7 +236,7 @@ def preemptStep (st : PreSt) (j : Json) : Except String (PreSt × String) := do
           match findAlloc w k with
           | none => invs := invs ++ [s!"C07.E1-bound {k}"]
           | some a =>
-            let v := eligViolations w a
+            let v := eligViolations w a ++ (if inheritedDisabled (confOf w) a.q then ["C07.E7i-disabled-policy-inherited"] else [])
             if a.q < w.queues.length && pathOf w a.q != i.s.path then invs := invs ++ [s!"C07.E5-other-leaf {k} listed under {i.s.path}"]
             if !v.isEmpty then invs := invs ++ v.map (· ++ s!" {k}")
         -- C08: a leaf within its guarantee contributes no victims
@@ -312,7 +335,7 @@ def preemptStep (st : PreSt) (j : Json) : Except String (PreSt × String) := do
         match findAlloc w k with
         | none => invs := invs ++ [s!"C07.E1-bound {k}"]
         | some a =>
-          let v := eligViolations w a
+          let v := eligViolations w a ++ (if inheritedDisabled (confOf w) a.q then ["C07.E7i-disabled-policy-inherited"] else [])
           if !v.isEmpty then invs := invs ++ v.map (· ++ s!" {k}")
           if !potential.contains k then invs := invs ++ [s!"C07.T1-commit-subset-of-potential {k}"]
           if privateGuarantee w a.q && !overGuaranteeSomewhere w a.q true then
@@ -452,6 +475,61 @@ def preemptStep (st : PreSt) (j : Json) : Except String (PreSt × String) := do
               let gross := allocatedOf w li
               let tag := if lp.any (fun p => decide (gross.getD p.1 > g.getD p.1)) then "+above-only-with-usage-being-preempted" else ""
               invs := invs ++ [s!"C08.Q2-quota-respects-guarantee{tag} {pathOf w li} used={showRes used} guaranteed={showRes g} share={showRes lp} loses {keysOf lv}"]
+    return (st, verdict diffs invs)
+  | "quotaseq" =>
+    let qi ← (fld j "q") >>= jNat
+    let some q := w.queues[qi]? | return (st, "bad-op queue")
+    let stepsJ ← (fld j "steps") >>= jArr
+    let traceJ ← (fld j "trace") >>= jArr
+    let e ← jEffects j
+    let alloc := allocatedOf w qi
+    let mut diffs : List String := []
+    let mut invs : List String := []
+    let mut cur : QuotaT × Int := ({ max := q.max, delay := 0, start := none, base := none }, 0)
+    let mut incomparable := false      -- a pending start went through a maximum change that is neither lower, higher nor equal
+    let mut idx := 0
+    for (sj, tj) in stepsJ.toList.zip traceJ.toList do
+      idx := idx + 1
+      let kind ← (fld sj "kind") >>= jStr
+      let step : QuotaStep ← match kind with
+        | "conf" => do
+          let c ← jRes (fldD sj "max" .null)
+          let dtext := (jStr (fldD sj "delay" (.str ""))).toOption.getD ""
+          let dsec : Int := if dtext == "" then 0 else ((Reload.convertDelay dtext 0 / 1000000000 : Nat) : Int)
+          pure (QuotaStep.conf (Reload.setRes c) dsec)
+        | "advance" => do pure (QuotaStep.advance (← (fld sj "sec") >>= jInt))
+        | "try" => pure QuotaStep.try
+        | _ => throw "bad step"
+      let before := cur
+      let inc := match step with
+        | .conf m _ => before.1.start.isSome && !comparableMax before.1.max m
+        | _ => false
+      if inc then incomparable := true
+      let (next, mfired) := quotaStep q.managed alloc cur step
+      cur := next
+      let iset ← (fld tj "startSet") >>= jBool
+      let irem : Option Int := (jInt (fldD tj "rem" .null)).toOption
+      let ifired := (jBool (fldD tj "fired" (.bool false))).toOption.getD false
+      let imax ← jORes (fldD tj "max" .null)
+      if diffs.isEmpty then
+        if !oresEq cur.1.max imax then diffs := diffs ++ [s!"quotaseq.max step={idx} model={showORes cur.1.max} impl={showORes imax}"]
+        else if mfired != ifired then diffs := diffs ++ [s!"quotaseq.fires step={idx} model={mfired} impl={ifired} now={cur.2} start={before.1.start}"]
+        else if cur.1.start.isSome != iset then diffs := diffs ++ [s!"quotaseq.scheduled step={idx} ({kind}) model={cur.1.start.isSome} impl={iset}"]
+        else match cur.1.start, irem with
+          | some t, some r => if t - cur.2 != r then diffs := diffs ++ [s!"quotaseq.start step={idx} ({kind}) due-in model={t - cur.2}s impl={r}s (delay {before.1.delay}s -> {cur.1.delay}s)"]
+          | _, _ => pure ()
+      -- C08: never due, and never fired, before (first lowering still in force) + (delay in force)
+      let tag := if incomparable then "+incomparable-max-change" else ""
+      if ifired then
+        match before.1.base with
+        | none => invs := invs ++ [s!"C08.T1-quota-not-before-delay{tag} step={idx} fired although nothing was scheduled"]
+        | some b => if before.2 < b + before.1.delay then
+            invs := invs ++ [s!"C08.T1-quota-not-before-delay{tag} step={idx} fired at {before.2}s; lowered at {b}s, delay in force {before.1.delay}s"]
+      match irem, cur.1.base with
+      | some r, some b => if cur.2 + r < b + cur.1.delay then
+          invs := invs ++ [s!"C08.T2-quota-start-not-early{tag} step={idx} ({kind}) due at {cur.2 + r}s; lowered at {b}s, delay in force {cur.1.delay}s"]
+      | _, _ => pure ()
+    invs := invs ++ effectClauses w e
     return (st, verdict diffs invs)
   | _ => return (st, "bad-op")
 
